@@ -41,6 +41,8 @@ class ScoreLaws (S : Type) [ScoreOps S] : Prop where
   sub_zero_neg : ∀ a : S, lt zero a = true → lt (sub zero a) zero = true
   /-- an exact rational literal `≥ 1` maps to a score `≥ 1` (C13: regenerated context-boost table) -/
   ofQ_ge_one : ∀ q : Q, (q.den : Int) ≤ q.num → 0 < q.den → lt (ofQ q : S) one = false
+  /-- `a ≥ b → c - a ≤ c - b` (C01: the fuzzy score normalisation is monotone on negative library scores) -/
+  sub_le_sub_left : ∀ a b c : S, lt a b = false → lt (sub c b) (sub c a) = false
 
 namespace ScoreLaws
 variable {S : Type} [ScoreOps S] [ScoreLaws S]
